@@ -178,6 +178,12 @@ func dischargeAll(results []*FuncResult, opts solveOpts) {
 				default:
 					j.o.Status = "undecided"
 				}
+			case "smoke-path":
+				if r.Verdict == "unsat" {
+					j.o.Status = "infeasible-path"
+				} else {
+					j.o.Status = "ok-" + r.Verdict
+				}
 			default: // smoke / sat: a contradiction in the assumptions is what must NOT be provable
 				if r.Verdict == "unsat" {
 					j.o.Status = "vacuous"
@@ -185,7 +191,7 @@ func dischargeAll(results []*FuncResult, opts solveOpts) {
 					j.o.Status = "ok-" + r.Verdict
 				}
 			}
-			if j.o.Status == "discharged" || strings.HasPrefix(j.o.Status, "ok-") {
+			if j.o.Status == "discharged" || strings.HasPrefix(j.o.Status, "ok-") || j.o.Status == "infeasible-path" {
 				os.Remove(file)
 			} else {
 				j.o.Output += "\nscript: " + file
@@ -193,4 +199,24 @@ func dischargeAll(results []*FuncResult, opts solveOpts) {
 		}()
 	}
 	wg.Wait()
+	// path mode: at least one return path of each function must be feasible
+	for _, r := range results {
+		n, ok := 0, 0
+		for _, o := range r.Obls {
+			if o.Kind == "smoke-path" {
+				n++
+				if strings.HasPrefix(o.Status, "ok-") {
+					ok++
+				}
+			}
+		}
+		if n > 0 && ok == 0 {
+			for _, o := range r.Obls {
+				if o.Kind == "smoke-path" {
+					o.Status = "vacuous"
+					break
+				}
+			}
+		}
+	}
 }
